@@ -56,9 +56,67 @@ def run_histories(res, prop, tier):
     return nontriv
 
 
+def small_histories(prop, tier):
+    """The API-history exploration of a reduced object set (everything but
+    Mixed, whose numba warning raises there on the unchanged tree), depth 6;
+    run in a subprocess whose warning filter promotes the library's warnings
+    to errors.  Returns the findings tagged `prop` as JSON-able tuples."""
+    objs = [o for o in Hh.spec_objects("quick")
+            if o.cls != "Mixed" and
+            not (o.cls == "TwoLevel" and o.params[0] > 3)]
+    out = []
+    tot = [0, 0]
+    for o in objs:
+        r = Hh.explore(o, 6)
+        tot[0] += r["states"]
+        tot[1] += r["transitions"]
+        for props, code, msg, hist in r["findings"]:
+            if prop in props:
+                out.append([o.as_json(), code, msg, hist])
+    return {"states": tot[0], "transitions": tot[1], "findings": out[:30],
+            "objects": len(objs)}
+
+
+def warnings_as_errors_pass(res, prop, tier):
+    """C10 in a process that runs with -W error for the library's warnings:
+    a call the protocol accepts must not raise a Warning, least of all after
+    it has changed the state."""
+    import json
+    import os
+    import subprocess
+    import sys
+    code = ("import sys, json; sys.path.insert(0, %r); "
+            "from vf import props_hist as P; "
+            "print('WERR ' + json.dumps(P.small_histories(%r, %r)))"
+            % (common.VERIF_DIR, prop, tier))
+    env = dict(os.environ, PYTHONHASHSEED="0", VERIF_REPO=common.REPO,
+               VERIF_WARNINGS="error")
+    p = subprocess.run([sys.executable, "-c", code], env=env, text=True,
+                       capture_output=True, timeout=1800)
+    line = [x for x in p.stdout.splitlines() if x.startswith("WERR ")]
+    if not line:
+        res.harness_error(f"warnings-as-errors pass failed: {p.stderr[-300:]}")
+        return
+    o = json.loads(line[-1][5:])
+    res.add(states=o["states"], transitions=o["transitions"],
+            evaluations=o["transitions"],
+            traces_validated_against_impl=o["states"])
+    res.counters["states_under_warnings_as_errors"] = o["states"]
+    for cj, code_, msg, hist in o["findings"]:
+        cfg = D.Config.from_json(cj)
+        rp = common.write_replay(prop, f"{cfg.cls}_{code_}_W_error", {
+            "property": prop, "kind": "history", "config": cj,
+            "history": hist, "code": code_, "msg": msg,
+            "warnings": "error"})
+        res.violation({"cls": cfg.cls, "code": code_ + "_W_error"},
+                      f"with the library's warnings promoted to errors: "
+                      f"{cfg!r} history {hist}: [{code_}] {msg}", rp)
+
+
 def check_c10(prop, tier):
     res = common.Result(prop, tier)
     nontriv = run_histories(res, prop, tier)
+    warnings_as_errors_pass(res, prop, tier)
     res.cov["distinct_nontrivial"] = nontriv
     res.cov["rule"] = ("BFS over all next()/finalize(k) histories up to the "
                        "depth bound on real objects, states merged on a "
@@ -125,6 +183,22 @@ def replay(prop, payload):
     if payload["kind"] == "stream":
         from . import props_stream
         return props_stream.replay(prop, payload)
+    import os
+    if payload.get("warnings") == "error" and \
+            os.environ.get("VERIF_WARNINGS") != "error":
+        import json
+        import subprocess
+        import sys
+        import tempfile
+        with tempfile.NamedTemporaryFile("w", suffix=".json",
+                                         delete=False) as f:
+            json.dump(payload, f)
+        r = subprocess.run([sys.executable,
+                            os.path.join(common.VERIF_DIR, "check"), prop,
+                            "--replay", f.name],
+                           env=dict(os.environ, VERIF_WARNINGS="error"))
+        os.unlink(f.name)
+        return r.returncode
     cfg = D.Config.from_json(payload["config"])
     hist = [tuple(e) for e in payload["history"]]
     # re-explore just the prefix that leads to the finding
